@@ -116,7 +116,7 @@ impl PagedWriter {
             Ok(n) => final(self).wf() && final(self).no_new_fault(old(self))
                 // short write at the page boundary only
                 && n == (if buf@.len() <= 1020 - old(self).offset { buf@.len() as int } else { 1020 - old(self).offset })
-                && final(self).dl() <= old(self).dl() + 1024
+                && final(self).dl() <= old(self).dl() + 1024 && final(self).dl() >= old(self).dl()
                 && (old(self).offset + n < 1020 ==> final(self).dl() == old(self).dl() && final(self).offset == old(self).offset + n)
                 && (old(self).offset + n == 1020 ==> final(self).offset == 0)
                 && final(self).cursor() == old(self).cursor() + n
@@ -178,6 +178,11 @@ impl PagedWriter {
         requires old(self).wf(), old(self).dl() + 1024 * ((old(self).offset + buf@.len()) / 1020 + 3) < u64::MAX,
         ensures match r {
             Ok(_) => final(self).wf() && final(self).no_new_fault(old(self)) && final(self).cursor() == old(self).cursor() + buf@.len()
+                && appended(*old(self), *final(self), buf@)
+                // the device grows by at most one page per page boundary crossed
+                && final(self).dl() <= old(self).dl() + 1024 * ((old(self).offset + buf@.len()) / 1020)
+                && final(self).dl() >= old(self).dl()
+                && final(self).offset == (old(self).offset + buf@.len()) % 1020
                 && final(self).stream().len() >= old(self).stream().len()
                 && (forall|i: int| 0 <= i < final(self).stream().len() ==> #[trigger] final(self).stream()[i] ==
                         (if old(self).cursor() <= i < old(self).cursor() + buf@.len() { buf@[i - old(self).cursor()] }
@@ -189,6 +194,8 @@ impl PagedWriter {
             invariant
                 done <= buf@.len(), self.wf(), self.dl() + 1024 * ((self.offset + (buf@.len() - done)) / 1020 + 3) < u64::MAX,
                 self.no_new_fault(old(self)),
+                self.dl() <= old(self).dl() + 1024 * ((old(self).offset + done) / 1020), self.dl() >= old(self).dl(),
+                self.offset == (old(self).offset + done) % 1020,
                 self.cursor() == old(self).cursor() + done,
                 self.stream().len() >= old(self).stream().len(),
                 forall|i: int| 0 <= i < self.stream().len() ==> #[trigger] self.stream()[i] ==
@@ -210,6 +217,7 @@ impl PagedWriter {
             // accepted iff inside the flushed file and not inside checksum bytes
             Ok(_) => final(self).wf() && final(self).no_new_fault(old(self)) && pos <= 1024 * old(self).npages() && pos % 1024 < 1020
                 && final(self).stream() =~= old(self).stream()
+                && final(self).dl() <= old(self).dl() + 1024 && final(self).dl() >= old(self).dl()
                 && final(self).cursor() == 1020 * (pos as int / 1024) + pos as int % 1024,
             Err(e) => final(self).writer.failed@ || pos > 1024 * old(self).npages() || pos % 1024 >= 1020 },
 //@call flush 0 after
@@ -231,6 +239,7 @@ impl PagedWriter {
             Ok(sz) => final(self).wf() && final(self).no_new_fault(old(self)) && final(self).stream() =~= old(self).stream() && final(self).cursor() == old(self).cursor()
                 // size of the flushed file: whole pages, 1024 per 1020 payload bytes
                 && sz == 1024 * old(self).npages() && sz == final(self).dl()
+                && final(self).dl() <= old(self).dl() + 1024 && final(self).dl() >= old(self).dl()
                 && (forall|i: int| 0 <= i < 1020 * old(self).npages() ==> final(self).writer.data@[phys(i)] == #[trigger] old(self).stream()[i]),
             Err(_) => final(self).writer.failed@ },
 //@endfn
@@ -241,22 +250,30 @@ impl PagedWriter {
         ensures match r {
             // reported physical position = phys(logical cursor): never inside checksum bytes
             Ok(p) => final(self).wf() && final(self).no_new_fault(old(self)) && final(self).stream() == old(self).stream() && final(self).cursor() == old(self).cursor()
-                    && p == phys(old(self).cursor()) && p % 1024 < 1020,
+                    && p == phys(old(self).cursor()) && p % 1024 < 1020 && final(self).dl() == old(self).dl(),
             Err(_) => final(self).writer.failed@ },
 //@endfn
 
 //@fn src/paged_writer.rs PagedWriter align serves=C11,C16,C02 ret=r
 //@rw &zeros\[mod_offset\.\.\] ==> vstd::slice::slice_subrange(&zeros, mod_offset, 4)
+//@tail
+        proof {
+            if mod_offset != 0 {
+                assert(zeros@.subrange(mod_offset as int, 4) =~= Seq::new((4 - mod_offset) as nat, |i: int| 0u8));
+            } else {
+                lemma_appended_refl(*self);
+                assert(Seq::new(0nat, |i: int| 0u8) =~= Seq::<u8>::empty());
+            }
+        }
 //@sig
         requires old(self).wf(), old(self).dl() + 4096 < u64::MAX,
         ensures match r {
             Ok(_) => final(self).wf() && final(self).no_new_fault(old(self)) && final(self).cursor() % 4 == 0 && final(self).cursor() - old(self).cursor() < 4
                 && final(self).cursor() >= old(self).cursor()
                 && final(self).stream().len() >= old(self).stream().len()
-                // only zero bytes are written, nothing before the cursor changes
-                && (forall|i: int| 0 <= i < final(self).stream().len() ==> #[trigger] final(self).stream()[i] ==
-                        (if old(self).cursor() <= i < final(self).cursor() { 0u8 }
-                         else if i < old(self).stream().len() { old(self).stream()[i] } else { 0u8 })),
+                // only zero bytes are written at the cursor, nothing else changes
+                && appended(*old(self), *final(self), Seq::new((final(self).cursor() - old(self).cursor()) as nat, |i: int| 0u8))
+                && final(self).dl() <= old(self).dl() + 1024 && final(self).dl() >= old(self).dl(),
             Err(_) => true },
 //@endfn
 
@@ -271,6 +288,7 @@ impl PagedWriter {
             Ok(_) => final(self).wf() && final(self).no_new_fault(old(self)) && final(self).stream() =~= old(self).stream() && final(self).cursor() == old(self).cursor()
                 // C11: after a flush the device payload IS the logical stream, whole pages, all sealed
                 && final(self).dl() == 1024 * old(self).npages()
+                && final(self).dl() <= old(self).dl() + 1024 && final(self).dl() >= old(self).dl()
                 && (forall|i: int| 0 <= i < 1020 * old(self).npages() ==> final(self).writer.data@[phys(i)] == #[trigger] old(self).stream()[i]),
             Err(_) => final(self).writer.failed@ },
 //@call write_all 0 before
@@ -315,3 +333,74 @@ proof fn theorem_flush_payload_is_stream(w: PagedWriter, d: Seq<u8>, s: Seq<u8>)
     assert(d.len() / 1024 == w.npages());
 }
 
+// ---- append / patch algebra over the logical stream view (used by the layers above) -----------
+/// (ns, nc) is (os, oc) with `bytes` written at oc (overwriting or extending; new pages zero filled), cursor advanced
+pub open spec fn app_seq(os: Seq<u8>, oc: int, ns: Seq<u8>, nc: int, bytes: Seq<u8>) -> bool {
+    &&& nc == oc + bytes.len()
+    &&& ns.len() >= os.len()
+    &&& nc <= ns.len()
+    &&& forall|i: int| 0 <= i < ns.len() ==> #[trigger] ns[i] ==
+            (if oc <= i < oc + bytes.len() { bytes[i - oc] } else if i < os.len() { os[i] } else { 0u8 })
+}
+pub open spec fn appended(o: PagedWriter, n: PagedWriter, bytes: Seq<u8>) -> bool {
+    app_seq(o.stream(), o.cursor(), n.stream(), n.cursor(), bytes)
+}
+pub proof fn lemma_app_seq_trans(s1: Seq<u8>, c1: int, s2: Seq<u8>, c2: int, s3: Seq<u8>, c3: int, x: Seq<u8>, y: Seq<u8>)
+    requires app_seq(s1, c1, s2, c2, x), app_seq(s2, c2, s3, c3, y), c1 >= 0
+    ensures app_seq(s1, c1, s3, c3, x + y)
+{
+    let xy = x + y;
+    assert forall|i: int| 0 <= i < s3.len() implies #[trigger] s3[i] ==
+            (if c1 <= i < c1 + xy.len() { xy[i - c1] } else if i < s1.len() { s1[i] } else { 0u8 }) by {
+        if c2 <= i < c2 + y.len() {
+            assert(xy[i - c1] == y[i - c1 - x.len()]);
+        } else if i < s2.len() {
+            assert(s3[i] == s2[i]);
+            if c1 <= i < c1 + x.len() { assert(xy[i - c1] == x[i - c1]); }
+        } else { }
+    }
+}
+pub proof fn lemma_appended_trans(a: PagedWriter, b: PagedWriter, c: PagedWriter, x: Seq<u8>, y: Seq<u8>)
+    requires appended(a, b, x), appended(b, c, y), a.cursor() >= 0
+    ensures appended(a, c, x + y)
+{
+    lemma_app_seq_trans(a.stream(), a.cursor(), b.stream(), b.cursor(), c.stream(), c.cursor(), x, y);
+}
+pub proof fn lemma_appended_refl(a: PagedWriter)
+    requires a.wf()
+    ensures appended(a, a, Seq::<u8>::empty())
+{}
+/// same stream content, cursor moved (physical_seek)
+pub open spec fn moved(o: PagedWriter, n: PagedWriter, c: int) -> bool { n.stream() =~= o.stream() && n.cursor() == c }
+/// overwrite of an already written prefix: x ++ y was written at c0; go back to c0, write x2 (|x2| == |x|), return to the end
+pub proof fn lemma_patch_seq(s0: Seq<u8>, c0: int, s3: Seq<u8>, s5: Seq<u8>, x: Seq<u8>, y: Seq<u8>, x2: Seq<u8>)
+    requires app_seq(s0, c0, s3, c0 + x.len() + y.len(), x + y), app_seq(s3, c0, s5, c0 + x2.len(), x2), x2.len() == x.len(), c0 >= 0
+    ensures app_seq(s0, c0, s5, c0 + x.len() + y.len(), x2 + y)
+{
+    let xy = x + y; let x2y = x2 + y;
+    assert forall|i: int| 0 <= i < s5.len() implies #[trigger] s5[i] ==
+            (if c0 <= i < c0 + x2y.len() { x2y[i - c0] } else if i < s0.len() { s0[i] } else { 0u8 }) by {
+        if c0 <= i < c0 + x2.len() {
+            assert(x2y[i - c0] == x2[i - c0]);
+        } else if i < s3.len() {
+            assert(s5[i] == s3[i]);
+            if c0 + x.len() <= i < c0 + xy.len() { assert(xy[i - c0] == y[i - c0 - x.len()]); assert(x2y[i - c0] == y[i - c0 - x2.len()]); }
+        } else { }
+    }
+}
+pub proof fn lemma_patch_prefix(a: PagedWriter, s3: PagedWriter, s4: PagedWriter, s5: PagedWriter, s6: PagedWriter, x: Seq<u8>, y: Seq<u8>, x2: Seq<u8>)
+    requires appended(a, s3, x + y), moved(s3, s4, a.cursor()), appended(s4, s5, x2), x2.len() == x.len(),
+        moved(s5, s6, a.cursor() + x.len() + y.len()), a.cursor() >= 0
+    ensures appended(a, s6, x2 + y)
+{
+    lemma_patch_seq(a.stream(), a.cursor(), s3.stream(), s5.stream(), x, y, x2);
+}
+/// physical <-> logical translation used by seeks to reported positions
+pub proof fn lemma_phys_roundtrip(c: int)
+    requires c >= 0
+    ensures phys(c) % 1024 < 1020, 1020 * (phys(c) / 1024) + phys(c) % 1024 == c, phys(c) >= 0
+{
+    let q = c / 1020; let r = c % 1020;
+    vstd::arithmetic::div_mod::lemma_fundamental_div_mod(c, 1020);
+    vstd::arithmetic::div_mod::lemma_fundamental_div_mod_converse(q * 1024 + r, 1024, q, r);
+}
